@@ -49,6 +49,8 @@ Variable root_attrs : list (N * cdata).
 Definition Known04a (w : world) (o : op) : bool :=
   match o with
   | OpRemoveFile _ _ => late_short T w
+  (* a copy of a source with a SHORT-NAME element that is not in front (only reachable through another class of Known04) *)
+  | OpCopy _ _ | OpCopyAt _ _ _ => Known04 T LATEST w o || late_short T w
   | _ => Known04 T LATEST w o
   end.
 
@@ -72,6 +74,25 @@ Definition copy_clean_a (w w' : world) (h c : id) : bool :=
   | None => false
   end.
 
+(* copies, what remains after the conditions that follow from the source world are discharged (Tree/IndexProofsCopyB.v):
+   nobody twice in the walk of the copy, no two identifiable elements of the copy with one path, no identifiable element inside a
+   copy that is not identifiable itself (finding C04-copy-container-duplicates-paths) *)
+Definition copy_clean_b (w w' : world) (h c : id) : bool :=
+  match w_nodes w h with
+  | Some nh =>
+    match path_unchecked T nh w with
+    | Val (OK path, _) =>
+      let w3 := mkWorld (fun j => if j =? h then Some nh else w_nodes w' j) (w_next w') (w_files w') (w_models w') in
+      let ids := walk (fuel_of w') w' c in
+      match reg_entries T (fuel_of w') w3 path c with
+      | Some (L, R) => nodupN ids && nodupb (map fst L) && (identifiable T w' c || is_empty L)
+      | None => false
+      end
+    | _ => false
+    end
+  | None => false
+  end.
+
 (* C05: as Known05, plus the two-model form of the container move; copies with the reduced condition *)
 Definition Known05a (w : world) (o : op) : bool :=
   match o with
@@ -81,7 +102,7 @@ Definition Known05a (w : world) (o : op) : bool :=
   | OpCopy h _ | OpCopyAt h _ _ =>
     match run_op T tab_el tab_en check_fn LATEST root_attrs o w with
     | Val (ER _, w') => negb (w_next w' =? w_next w)
-    | Val (OK (VElem c), w') => negb (copy_clean_a w w' h c)
+    | Val (OK (VElem c), w') => negb (copy_clean_b w w' h c)
     | _ => false
     end
   | _ => Known05 T tab_el tab_en check_fn LATEST root_attrs w o
